@@ -41,6 +41,21 @@ def run(ctx):
     trans += rds.generated
     mc.append({"instance": "D (deadlock expected: known finding)", "deadlock_found": design_deadlock, "distinct": rd.distinct})
     mc.append({"instance": "DS", "distinct": rds.distinct, "generated": rds.generated})
+    # node drop / re-creation with an emitter created late (instances L, L2): the real tryDropNode (re-check under
+    # both locks) leaves no subscriber behind; the design variant that trusts its caller's earlier check must fail
+    for x in (["L", "L2"] if thorough else ["L"]):
+        cfg = tlc.subst_cfg("C15_MC.cfg", replace=[("X_", x + "_"), ("INVARIANTS " + INVS, "INVARIANTS " + INVS + " NoOrphan")])
+        r = tlc.run(ctx, "C15_MC", "gen_%s.cfg" % x, cfg_text=cfg, workers=4, timeout=900, name="mc" + x)
+        if not r.ok:
+            raise MachineryError("design-level failure in C15 instance %s: %s\n%s" % (x, r.violated, r.out[-2000:]))
+        states += r.distinct
+        trans += r.generated
+        mc.append({"instance": x + " (late emitter)", "distinct": r.distinct, "generated": r.generated})
+    cfg = tlc.subst_cfg("C15_MC.cfg", replace=[("X_", "L_"), ("DropTrustsCaller = FALSE", "DropTrustsCaller = TRUE")])
+    r = tlc.run(ctx, "C15_MC", "gen_Lq.cfg", cfg_text=cfg, workers=2, timeout=600, name="mcLq")
+    if r.ok or r.violated != "ExactlyOnce":
+        raise MachineryError("the design variant DropTrustsCaller must violate ExactlyOnce in instance L (got %s)" % r.violated)
+    mc.append({"instance": "L with DropTrustsCaller (ExactlyOnce must fail)", "violated": r.violated, "distinct": r.distinct})
     # vacuity: retained events and full channels are reachable
     for probe in ("ReachRetained", "ReachFullChan", "ReachTerminated"):
         cfg = tlc.subst_cfg("C15_MC.cfg", replace=[("X_", "BQ_"), ("INVARIANTS " + INVS, "INVARIANTS " + probe)])
